@@ -871,6 +871,10 @@ type c05cCase struct {
 	TTLEvery   int   `json:"ttl_every"`     // every n-th key gets a 1-3 ms TTL (0 = none)
 	Pert       int   `json:"pert"`
 	StallUs    []int `json:"stall_us,omitempty"`
+	// tick storm: the real ticker goroutine is made to fire every ~100 us, so that expiry notifications
+	// (ticker goroutine) overlap evictions and deletes (maintenance goroutine); the listener takes ListenUs
+	TickStorm bool `json:"tick_storm,omitempty"`
+	ListenUs  int  `json:"listen_us,omitempty"`
 }
 
 func genC05c(t *rapid.T) c05cCase {
@@ -888,6 +892,14 @@ func genC05c(t *rapid.T) c05cCase {
 		c.Lag = 0
 	}
 	c.StallUs = rapid.SliceOfN(rapid.SampledFrom([]int{0, 50, 500}), 0, 3).Draw(t, "stalls")
+	if rapid.IntRange(0, 2).Draw(t, "tickStorm") == 0 {
+		c.TickStorm = true
+		c.TTLEvery = rapid.SampledFrom([]int{2, 3}).Draw(t, "stormTTLEvery")
+		c.ListenUs = rapid.SampledFrom([]int{0, 5, 30}).Draw(t, "listenUs")
+		if c.PerG > 1000 {
+			c.PerG = 1000
+		}
+	}
 	return c
 }
 
@@ -896,6 +908,13 @@ func execC05c(c c05cCase, x *verifkit.Ctx) (fail *verifkit.Failure) {
 		panic("needs real maintenance")
 	}
 	vkRealTime()
+	if c.TickStorm {
+		// the timer wheel reclaims by slots of 2^30 ns: with real time a case of a few milliseconds almost never
+		// sees a reclamation, however often the ticker fires. In storm cases time is virtual (hook H1) and
+		// jumps 1.2 s before every forced tick, so every tick reclaims what was stored with a TTL before it.
+		vkResetWall()
+		defer vkRealTime()
+	}
 	type note struct {
 		n       int
 		reasons [3]int
@@ -914,8 +933,44 @@ func execC05c(c c05cCase, x *verifkit.Ctx) (fail *verifkit.Failure) {
 		nt.reasons[r]++
 		nt.val = v
 		mu.Unlock()
+		if c.ListenUs > 0 {
+			for t0 := time.Now(); time.Since(t0) < time.Duration(c.ListenUs)*time.Microsecond; {
+				runtime.Gosched()
+			}
+		}
 	}})
 	defer s.Close()
+	stormStop := make(chan struct{})
+	stormDone := make(chan struct{})
+	if c.TickStorm {
+		var tk *time.Ticker
+		for i := 0; tk == nil; i++ {
+			s.policyMu.Lock()
+			tk = s.maintenanceTicker
+			s.policyMu.Unlock()
+			if tk == nil {
+				runtime.Gosched()
+				if i > 1000 {
+					time.Sleep(50 * time.Microsecond)
+				}
+			}
+		}
+		go func() {
+			defer close(stormDone)
+			for {
+				select {
+				case <-stormStop:
+					return
+				default:
+				}
+				vkAdvance(1_200_000_000)
+				tk.Reset(time.Microsecond)
+				time.Sleep(100 * time.Microsecond)
+			}
+		}()
+	} else {
+		close(stormDone)
+	}
 	stored := make([][]int, c.Goroutines)
 	deletedResident := make([]map[int]bool, c.Goroutines)
 	var wg sync.WaitGroup
@@ -964,7 +1019,16 @@ func execC05c(c c05cCase, x *verifkit.Ctx) (fail *verifkit.Failure) {
 		f.Sticky = true
 		return f
 	}
+	if c.TickStorm {
+		time.Sleep(4 * time.Millisecond) // the last TTLs (1-3 ms) pass while the storm is still on
+	}
+	close(stormStop)
+	<-stormDone
 	s.Wait()
+	// no tick or batch may run while the map and the notifications are compared (the listener is called
+	// under the policy lock): hold it from here on
+	s.policyMu.Lock()
+	defer s.policyMu.Unlock()
 	resident := map[int]bool{}
 	for _, sh := range s.shards {
 		tk := sh.mu.RLock()
@@ -1011,6 +1075,7 @@ func execC05c(c c05cCase, x *verifkit.Ctx) (fail *verifkit.Failure) {
 		return verifkit.Failf("notify-conc/conservation", "stored %d != resident %d + notifications %d", total, len(resident), notified)
 	}
 	x.ClassIf(c.TTLEvery > 0, "with-ttl")
+	x.ClassIf(c.TickStorm, "tick-storm")
 	if overlaps > 0 && c.Lag <= 2*c.MaxSize {
 		x.NonTrivial()
 	}
@@ -1020,7 +1085,7 @@ func execC05c(c c05cCase, x *verifkit.Ctx) (fail *verifkit.Failure) {
 func TestVerifC05Conc(t *testing.T) {
 	verifkit.Run(t, verifkit.Spec[c05cCase]{
 		ID: "C05", Gen: genC05c, Exec: execC05c, Nondet: true,
-		Rule:        "C05 (concurrent tier): rapid draws MaxSize {4,16,64,256}, 2..8 goroutines each storing 200..4000 fresh keys (every key is stored exactly once, so it has one incarnation; optionally every n-th with a 1-3 ms TTL) and deleting the key it stored 'lag' insertions earlier, with lag drawn around the point where the policy evicts that key, Gosched perturbation and policy-lock stalls; after Wait every stored key is either resident or was notified exactly once with its value, no key is notified that was never stored, and stored == resident + notifications; non-trivial = some keys were evicted/expired while deletes of the same age were running",
+		Rule:        "C05 (concurrent tier): rapid draws MaxSize {4,16,64,256}, 2..8 goroutines each storing 200..4000 fresh keys (every key is stored exactly once, so it has one incarnation; optionally every n-th with a 1-3 ms TTL) and deleting the key it stored 'lag' insertions earlier, with lag drawn around the point where the policy evicts that key, Gosched perturbation and policy-lock stalls; in a third of the cases a tick storm (virtual time jumping 1.2 s and the real ticker goroutine made to fire every ~100 us, every 2nd or 3rd key with a 1-3 ms TTL, the listener taking 0-30 us) lets expiry notifications from the ticker goroutine overlap evictions and deletes reported by the maintenance goroutine; after Wait every stored key is either resident or was notified exactly once with its value, no key is notified that was never stored, and stored == resident + notifications; non-trivial = some keys were evicted/expired while deletes of the same age were running",
 		Assumptions: ccAssumptions,
 	})
 }
